@@ -941,6 +941,9 @@ func sameExprD(a, b ssa.Value, d int) bool {
 	case *ssa.Field:
 		y, ok := b.(*ssa.Field)
 		return ok && x.Field == y.Field && sameExprD(x.X, y.X, d+1)
+	case *ssa.IndexAddr:
+		y, ok := b.(*ssa.IndexAddr)
+		return ok && sameExprD(x.X, y.X, d+1) && sameExprD(x.Index, y.Index, d+1)
 	case *ssa.Call:
 		y, ok := b.(*ssa.Call)
 		if !ok {
